@@ -329,6 +329,21 @@ def main(tier, seed):
     if utype.Options(no_data_loss=True, addition=None).addition is not False:
         res.violations.append(dict(case="Options(no_data_loss=True, addition=None)", observed=repr(utype.Options(no_data_loss=True, addition=None).addition),
                                    what="no_data_loss does not imply addition=False"))
+    # extra tuple items are rejected under no_data_loss, whatever `addition` says (the model proves it: C12_ndl_tuple_excess_rejected)
+    from typing import Tuple
+    from utype.utils.transform import type_transform
+    from utype.utils import exceptions as exc
+    from utype import Rule
+    TT = Rule.parse_annotation(Tuple[int, str])
+    for add in (None, True, False, int):
+        for val in ((1, "a", "3"), [1, "a", 2, 3]):
+            kw = dict(no_data_loss=True) if add is None else dict(no_data_loss=True, addition=add)
+            try:
+                r = type_transform(val, TT, utype.Options(**kw))
+                res.violations.append(dict(case="Tuple[int, str] given %r under Options(%s)" % (val, kw), observed=repr(r),
+                                           what="no_data_loss: extra tuple items are not rejected"))
+            except exc.ParseError:
+                pass
     for t, v, msg in bad[:3]:
         res.violations.append(dict(case="target=%s value=%s" % (t, v), observed=msg, what=msg))
     dataclass_suite(res, tier, seed)
